@@ -1,6 +1,6 @@
 SPECIFICATION Spec
 CONSTANTS
-  WLS = {4,6,9,12}
+  WLS = {4,6,9}
   NMin = 2
   NMax = 3
   NCol = 3
